@@ -1,8 +1,121 @@
-//! stub — to be implemented
-use crate::common::{Ctx, Report};
+//! C11 — command channels deliver every message once, intact, in order, within memory bounds.
+//!
+//! Direct lab on `sozu_command_lib::channel::Channel` over a Unix socketpair.
+//!
+//! Families of cases (each case owns a fresh socketpair):
+//!  * `read`      real non-blocking / blocking `Channel` reader, the harness writes the framed byte
+//!                stream raw on the other end with random split points and tick skipping;
+//!  * `xsplit`    the same for short sequences, *every* single split, *every* pair of splits and
+//!                the byte-by-byte schedule (exhaustive sub-space);
+//!  * `malformed` every malformed prefix class and payload corruption at every byte position of a
+//!                short frame, with valid frames in front and behind;
+//!  * `write`     real non-blocking `Channel` writer against a raw reader that reads slowly (small
+//!                `SO_SNDBUF`: `writable()` really meets `EAGAIN`);
+//!  * `pair`      two real non-blocking `Channel`s, traffic in both directions;
+//!  * `bpair`     two real blocking `Channel`s in two threads (`write_message` / `read_message`);
+//!  * `twrite`    non-blocking writer while a peer thread drains concurrently (several partial
+//!                writes inside one `writable()` call).
+//!
+//! Oracles (from the statement, framing from the module documentation of channel.rs: native
+//! `usize` little-endian length prefix holding the *total* frame length, then the prost payload):
+//! delivered sequence == sent sequence; `front_buf`/`back_buf` capacity <= `max_buffer_size`
+//! after every call; malformed frame => `Err`, never `Ok(garbage)`, never a panic; after an
+//! in-range malformed frame the valid frames behind it are delivered within K further calls;
+//! bounded work per call.
 
-pub fn run(_ctx: &Ctx) -> Report {
-    let mut rep = Report::new("exploration", "not implemented");
-    rep.broken("check not implemented yet");
+mod drive;
+mod families;
+mod msg;
+
+use serde_json::{Value, json};
+
+use crate::common::{Ctx, Report, par_cases_named};
+
+// small families first: when the budget runs out only the big random ones are cut short
+pub const FAMILIES: &[&str] = &["xsplit", "malformed", "bpair", "twrite", "pair", "write", "read"];
+
+pub fn run(ctx: &Ctx) -> Report {
+    let mut rep = Report::new(
+        "exploration",
+        "each case is one socketpair with a real Channel on one or both ends: a message-size sequence (boundary-biased: prefix size, initial capacity and its doublings, max/2, max-8..max; many-small + one-huge + small), a split/tick schedule (random, or exhaustive single/pair/bytewise splits for short sequences), a driver style (server.rs loop, sessions.rs extract_messages loop, blocking), buffer sizes initial 16..1024 / max 64..65536, optionally one malformed frame (every prefix class, payload corruption at every byte position); a case is non-trivial when at least one frame was split across reads/writes or a malformed frame was injected or EAGAIN was met; distinct = distinct (family, sizes, schedule, style, buffer sizes)",
+    );
+    rep.assume("prost (Message::decode / encode_to_vec) is trusted as the reference for what a payload decodes to; the framing is re-implemented from the module documentation (usize LE prefix = total frame length)");
+    rep.assume("a spurious Err on a well-formed stream that does not lose, duplicate or reorder a message is counted (spurious_error/*), not judged");
+    rep.assume("after a frame whose declared length exceeds max_buffer_size repeated Err is accepted and resynchronisation is not required (no sane recovery exists); only Ok(garbage), growth above the ceiling and unbounded work are judged there");
+    for k in [
+        "messages_delivered",
+        "frames_split_across_reads",
+        "read_eagain_windows",
+        "write_eagain_windows",
+        "front_buf_grew",
+        "front_buf_shrank",
+        "back_buf_grew",
+        "back_buf_shrank",
+        "front_buf_reached_max",
+        "back_buf_reached_max",
+        "malformed_injected/under_prefix_length",
+        "malformed_injected/over_max_length",
+        "malformed_injected/undecodable_payload",
+        "malformed_reported_as_err",
+        "resync_after_malformed_checked",
+        "exact_max_frame_sent",
+        "blocking_messages_delivered",
+        "pair_messages_delivered",
+        "write_backpressure_rejections",
+        "threaded_write_messages_delivered",
+    ] {
+        rep.require(k);
+    }
+
+    if let Some(path) = &ctx.replay {
+        let v: Value = serde_json::from_str(&std::fs::read_to_string(path).unwrap_or_default()).unwrap_or(Value::Null);
+        if let Some(ws) = v["witnesses"].as_array() {
+            for w in ws {
+                if let (Some(f), Some(c)) = (w["family"].as_str(), w["case"].as_u64()) {
+                    families::run_case(ctx, f, c, &mut rep);
+                }
+            }
+        }
+        return rep;
+    }
+
+    let only = ctx.opt("family").map(|s| s.to_owned());
+    let scale = ctx.opt_u64("scale", ctx.tier.pick(1, 12));
+    let mut plan = Vec::new();
+    for fam in FAMILIES {
+        if let Some(o) = &only {
+            if o != fam {
+                continue;
+            }
+        }
+        let n = families::case_count(fam, scale);
+        let n = ctx.opt_u64(&format!("cases_{fam}"), n);
+        plan.push((fam.to_string(), n));
+    }
+    let mut exhaustive_ok = true;
+    for (fam, n) in &plan {
+        let before = rep.observed.get("cases_not_started_budget_exhausted").copied().unwrap_or(0);
+        par_cases_named(ctx, &mut rep, *n, fam, |i, r| families::run_case(ctx, fam, i, r));
+        let after = rep.observed.get("cases_not_started_budget_exhausted").copied().unwrap_or(0);
+        if (fam == "xsplit" || fam == "malformed") && after != before {
+            exhaustive_ok = false;
+        }
+    }
+    // summarise the per-bucket keys
+    let fills: Vec<String> = rep.observed.keys().filter(|k| k.starts_with("write_eagain_fill/")).cloned().collect();
+    rep.set("write_eagain_distinct_fill_levels_32ths", json!(fills.len()));
+    for k in fills {
+        rep.observed.remove(&k);
+    }
+    rep.set(
+        "exhaustive_subspaces",
+        json!({
+            "xsplit": {"what": "for each listed short sequence x buffer config x driver style: the unsplit schedule, every single split position, every pair of split positions, and the byte-by-byte schedule",
+                       "sequences": families::xsplit_description(), "complete": exhaustive_ok && only.as_deref().map(|o| o == "xsplit").unwrap_or(true)},
+            "malformed": {"what": "under-prefix lengths 0..7, over-max lengths {max+1,max+2,2max,2^32,2^63,usize::MAX-8,usize::MAX-1,usize::MAX}, crafted undecodable payloads, xor corruption {0x01,0x80,0xff} at every payload byte of a short frame; x context (frames before/behind) x feed mode x driver style x 2 buffer configs x 2 message types",
+                          "complete": exhaustive_ok && only.as_deref().map(|o| o == "malformed").unwrap_or(true)},
+        }),
+    );
+    rep.exhaustive = Some(false);
     rep
 }
